@@ -114,6 +114,11 @@ def check(rep, ctx):
                         for y in x:
                             max_args(y, acc)
                     return acc
+                partial = [a for a in max_args(t, []) if isinstance(a, tuple) and a[:1] == ("rest",)]
+                rep.check(R_P, not partial, construct=fn.ref, stmt="max(<generator already advanced by next()>)",
+                          message=f"{case}: maxTimestamp is the maximum over what is left of a generator after next() took the first record: "
+                                  f"when the first record has the largest timestamp the header carries a smaller one",
+                          file=file, line=fn.node.lineno, instance=f"{case}|max-all")
                 over_dt = [a for a in max_args(t, []) if isinstance(a, tuple) and a[:1] == ("repeat",) and
                            any(e == ("attr", ("elem", records), "timestamp") for e in (a[2] if len(a) > 2 and isinstance(a[2], tuple) else ()))]
                 rep.check(R_P, not over_dt, construct=fn.ref, stmt="max(record.timestamp for record in records)",
@@ -242,6 +247,9 @@ def check(rep, ctx):
         seen.add(key)
         q, issues = timeflow.write_side(c2, 64, "timestamp")
         issues = [i for i in issues if i[0] in ("T-trunc", "T-unit", "T-int", "T-epoch")]
+        if q is None:
+            rep.limit(f"{f.ref}: timestamp conversion not understood: {timeflow.show(c2)[:160]}")
+            continue
         rep.check(R_T, q is not None and not issues, construct=f.ref, stmt=timeflow.show(c2),
                   message="; ".join(f"{r}: {m}" for r, m, _ in issues) or "conversion not understood", file=file, line=f.node.lineno)
     from .. import scan
